@@ -1,7 +1,7 @@
 (* Properties/C03.v — loading a well-formed document defines exactly its objects.
    Only statements, each closed by [exact] of a lemma from Proofs/, with Print Assumptions.
 
-   Model: coq/Model/Loader.v (see Properties/C04.v).  [layout_of d root p E c0] says, by the contents of the
+   Model: coq/Model/Loader.v (see Properties/C04.v).  [layout_of d root p E] says, by the contents of the
    file only, that the abstract file p stores document d: at the startxref offset lies ONE cross-reference
    section of any of the three kinds ([section_at]: classic table, xref stream, hybrid table + /XRefStm)
    with entries E; every in-use entry leads to an object carrying its identifier whose /Length is direct or a
@@ -15,22 +15,22 @@ From PV Require Import Model.Loader Proofs.Loader Proofs.LoaderObjs Proofs.Loade
 (* C03_load on the current tree (= C03_except_known: [good] asks a referenced /Length to be an in-file object):
    exactly the document's objects with the values written, the trailer's root, and nothing else but the
    bookkeeping containers of the layout *)
-Theorem C03_load : forall d root p E c0,
-  layout_of d root p E c0 ->
+Theorem C03_load : forall d root p E,
+  layout_of d root p E ->
   exists c, load p = Loaded c root /\
             (forall id v, In (id, v) d -> ctx_get c id = Some (VObj v)) /\
             (forall id w, ctx_get c id = Some w -> (exists v, w = VObj v /\ In (id, v) d) \/ w = VXStm \/ (exists ms, w = VObjStm ms)).
 Proof. exact load_document. Qed.
 
 (* the hypothesis is satisfiable: a three-object document in a hybrid layout with an object stream *)
-Theorem C03_load_nonvacuous : layout_of hy_doc (1, 0)%N hy_pdf hy_E [((11, 0)%N, VXStm)].
+Theorem C03_load_nonvacuous : layout_of hy_doc (1, 0)%N hy_pdf hy_E.
 Proof. exact hy_layout. Qed.
 
 (* the unrestricted statement is refuted: a one-revision document whose stream 3 0 has /Length 9 0 R with
    9 0 = 3 stored in object stream 10 0 is rejected (object streams are read after the second pass) *)
 Theorem C03_load_refuted_length_in_objstm :
   p_magic w_len_in_objstm = true /\ p_startxref w_len_in_objstm = Some 193%N /\
-  section_at (p_file w_len_in_objstm) (p_flen w_len_in_objstm) [] 193%N [((11, 0)%N, VXStm)] E_len (Some (ORef 1 0)) None /\
+  section_at (p_file w_len_in_objstm) (p_flen w_len_in_objstm) 193%N E_len (Some (ORef 1 0)) None /\
   resolve (p_file w_len_in_objstm) E_len (3, 0)%N = Some (VObj (OStream [(B "Length", ORef 9 0)] (B "abc"))) /\
   resolve (p_file w_len_in_objstm) E_len (9, 0)%N = Some (VObj (OInt 3)) /\
   load w_len_in_objstm = Rejected.
@@ -38,16 +38,16 @@ Proof. exact length_in_objstm_refutes. Qed.
 
 (* a file in which the object found at a cross-reference offset carries a different identifier than its entry
    (or is no object at all) is rejected — whatever else the file contains *)
-Theorem C03_identity_mismatch : forall p S c0 r sx e ofs,
-  p_startxref p = Some sx -> chain (p_file p) (p_flen p) [] sx S c0 -> NoDup (map s_off S) ->
+Theorem C03_identity_mismatch : forall p S r sx e ofs,
+  p_startxref p = Some sx -> chain (p_file p) (p_flen p) sx S -> NoDup (map s_off S) ->
   match S with s :: _ => s_root s = Some r | [] => False end ->
-  In e (first_per_key (all_ents S)) -> x_st e = XInUse ofs -> ctx_get c0 (x_id e) = None ->
+  In e (first_per_key (all_ents S)) -> x_st e = XInUse ofs ->
   (forall it nx v, find (p_file p) ofs = Some (it, nx) -> item_val it = Some (x_id e, v) -> False) ->
   load p = Rejected.
 Proof. exact load_identity_mismatch. Qed.
 
 (* [chain] above is the walk itself; sections described by the file's contents form such a chain *)
-Theorem C03_sections_chain : forall f flen c o S c', sections f flen c o S c' -> chain f flen c o S c'.
+Theorem C03_sections_chain : forall f flen o S, sections f flen o S -> chain f flen o S.
 Proof. exact sections_chain. Qed.
 
 Print Assumptions C03_load.
